@@ -73,6 +73,10 @@ pub enum Op {
     ApproxEq(usize, usize, f64),
     Argmax(usize),
     Shape(usize),
+    /// equality tests between a matrix and a copy of it with one entry changed by delta
+    PerturbedEq(usize, usize, usize, f64),
+    PerturbedApproxEq(usize, usize, usize, f64, f64),
+    PerturbedMaxDiff(usize, usize, usize, f64),
     // ---- vector ops (operands are vector registers)
     VBin(Ar, usize, usize),
     VScalar(Ar, usize, f64),
@@ -91,6 +95,9 @@ pub enum Op {
     VCopyFrom(usize, usize),
     VFill(usize, f64),
     VLen(usize),
+    VZeros(usize),
+    VOnes(usize),
+    VPerturbedApproxEq(usize, usize, f64, f64),
 }
 
 impl Op {
@@ -525,6 +532,30 @@ fn model_raw(op: &Op, r: &Regs, epsw: f64) -> MOut {
             Special(self::Special::ArgmaxOneOf(sets))
         }
         Op::Shape(a) => Val(self::Val::I(vec![m[*a].r, m[*a].c]), vec![], 0.0),
+        Op::PerturbedEq(a, i, j, delta) => {
+            let x = m[*a].at(*i, *j);
+            let y = x + delta;
+            if y == x {
+                Val(self::Val::B(true), vec![], 0.0)
+            } else if (y - x).abs() > 1e-6 * x.abs().max(y.abs()).max(1.0) {
+                Val(self::Val::B(false), vec![], 0.0)
+            } else {
+                Unspecified("operands differ by less than 1e-6 relative: equality band left open")
+            }
+        }
+        Op::PerturbedApproxEq(a, i, j, delta, err) => {
+            let x = m[*a].at(*i, *j);
+            let worst = ((x + delta) - x).abs();
+            if (worst - err).abs() <= 8.0 * epsw * (worst.abs() + err.abs() + x.abs()) {
+                Unspecified("approximate_eq exactly at the boundary")
+            } else {
+                Val(self::Val::B(worst <= *err), vec![], 0.0)
+            }
+        }
+        Op::PerturbedMaxDiff(a, i, j, delta) => {
+            let x = m[*a].at(*i, *j);
+            val_s(((x + delta) - x).abs(), 2.0 * x.abs() + delta.abs(), 2.0)
+        }
         // ---------------- vectors
         Op::VBin(k, a, b) => {
             if v[*a].len() != v[*b].len() {
@@ -605,6 +636,17 @@ fn model_raw(op: &Op, r: &Regs, epsw: f64) -> MOut {
             }
         }
         Op::VFill(n, x) => val_v(vec![*x; *n], exact(*n), 0.0),
+        Op::VZeros(n) => val_v(vec![0.0; *n], exact(*n), 0.0),
+        Op::VOnes(n) => val_v(vec![1.0; *n], exact(*n), 0.0),
+        Op::VPerturbedApproxEq(a, i, delta, err) => {
+            let x = v[*a][*i];
+            let worst = ((x + delta) - x).abs();
+            if (worst - err).abs() <= 8.0 * epsw * (worst.abs() + err.abs() + x.abs()) {
+                Unspecified("approximate_eq exactly at the boundary")
+            } else {
+                Val(self::Val::B(worst <= *err), vec![], 0.0)
+            }
+        }
         Op::VLen(a) => Val(self::Val::I(vec![v[*a].len()]), vec![], 0.0),
     }
 }
@@ -865,6 +907,26 @@ pub fn exec<T: RealNumber, M: Matrix<T>>(op: &Op, r: &BackendRegs<T, M>) -> Resu
                 let (rr, cc) = m[*a].shape();
                 BVal::I(vec![rr, cc])
             }
+            Op::PerturbedEq(a, i, j, delta) => {
+                let mut b = m[*a].clone();
+                b.set(*i, *j, t(f(m[*a].get(*i, *j)) + *delta));
+                BVal::B(m[*a] == b && b == m[*a])
+            }
+            Op::PerturbedApproxEq(a, i, j, delta, err) => {
+                let mut b = m[*a].clone();
+                b.set(*i, *j, t(f(m[*a].get(*i, *j)) + *delta));
+                let r1 = m[*a].approximate_eq(&b, t(*err));
+                let r2 = b.approximate_eq(&m[*a], t(*err));
+                if r1 != r2 {
+                    note = Some("approximate_eq is not symmetric".to_string());
+                }
+                BVal::B(r1)
+            }
+            Op::PerturbedMaxDiff(a, i, j, delta) => {
+                let mut b = m[*a].clone();
+                b.set(*i, *j, t(f(m[*a].get(*i, *j)) + *delta));
+                BVal::S(m[*a].max_diff(&b))
+            }
             Op::VBin(k, a, b) => {
                 let (x, y) = (&v[*a], &v[*b]);
                 let c = match k {
@@ -958,6 +1020,13 @@ pub fn exec<T: RealNumber, M: Matrix<T>>(op: &Op, r: &BackendRegs<T, M>) -> Resu
                 BVal::V(c)
             }
             Op::VLen(a) => BVal::I(vec![v[*a].len()]),
+            Op::VZeros(n) => BVal::V(<M::RowVector as BaseVector<T>>::zeros(*n)),
+            Op::VOnes(n) => BVal::V(<M::RowVector as BaseVector<T>>::ones(*n)),
+            Op::VPerturbedApproxEq(a, i, delta, err) => {
+                let mut b = v[*a].clone();
+                b.set(*i, t(f(v[*a].get(*i)) + *delta));
+                BVal::B(v[*a].approximate_eq(&b, t(*err)))
+            }
         };
         (out, note)
     })
@@ -1178,7 +1247,7 @@ pub fn draw_op(rng: &mut Rng, r: &Regs, f32w: bool) -> Op {
         }
     };
     let f32f = |x: f64| if f32w { x as f32 as f64 } else { x };
-    match rng.below(64) {
+    match rng.below(66) {
         0 | 1 => Op::Transpose(a),
         2 | 3 => {
             let b = if want_compat { find_m(rng, r, |x| x.r == ma.c).unwrap_or_else(|| rng.below(nm)) } else { rng.below(nm) };
@@ -1334,11 +1403,34 @@ pub fn draw_op(rng: &mut Rng, r: &Regs, f32w: bool) -> Op {
             1 => Op::VCopyFrom(u, same_len(rng)),
             _ => Op::VSet(u, rng.below(r.v[u].len()), f32f(scalar(rng))),
         },
-        _ => match rng.below(3) {
-            0 => Op::VFill(rng.us(1, 6), f32f(scalar(rng))),
-            1 => Op::VLen(u),
-            _ => Op::Shape(a),
-        },
+        _ => {
+            let (i, j) = (rng.below(ma.r), rng.below(ma.c));
+            let x = ma.at(i, j);
+            // a perturbation that is exactly representable next to x in both widths
+            let base = 2f64.powi((x.abs().max(1e-30)).log2().floor() as i32);
+            let delta = match rng.below(4) {
+                0 => 0.0,
+                1 => base * 2f64.powi(-(rng.int(1, 8) as i32)),
+                2 => -base * 2f64.powi(-(rng.int(1, 8) as i32)),
+                _ => base * (rng.int(1, 4) as f64),
+            };
+            match rng.below(10) {
+                0 => Op::VFill(rng.us(1, 6), f32f(scalar(rng))),
+                1 => Op::VLen(u),
+                2 => Op::Shape(a),
+                3 => Op::VZeros(rng.us(1, 6)),
+                4 => Op::VOnes(rng.us(1, 6)),
+                5 | 6 => Op::PerturbedEq(a, i, j, delta),
+                7 => Op::PerturbedApproxEq(a, i, j, delta, base * 2f64.powi(rng.int(-10, 3) as i32)),
+                8 => Op::PerturbedMaxDiff(a, i, j, delta),
+                _ => {
+                    let k = rng.below(r.v[u].len());
+                    let xv = r.v[u][k];
+                    let bv = 2f64.powi((xv.abs().max(1e-30)).log2().floor() as i32);
+                    Op::VPerturbedApproxEq(u, k, if rng.bool(0.3) { 0.0 } else { bv * 2f64.powi(-(rng.int(1, 8) as i32)) }, bv * 2f64.powi(rng.int(-10, 3) as i32))
+                }
+            }
+        }
     }
 }
 
